@@ -140,9 +140,10 @@ CHECKS["C20"] = dict(
 CHECKS["C06"] = dict(
     level_text="The real Send (walk, queue, four file workers, request loop) is executed symbolically against an independent reference receiver written from the protocol comment, for every source view, request script and read fragmentation inside the bounds; the solver decides every branch, so STAT order/content, DATA framing per id, rejection of invalid ids, FIN echo and progress monotonicity are shown for all those inputs under the canonical schedule.",
     level_note="Bounds: views over {d, d/f, e, g} with solver-chosen classes (regular/symlink/fifo), regular files of 0..1 (quick) / 0..2 (thorough) symbolic bytes read in arbitrary fragments, request scripts of 2 (quick) / 3 (thorough) ids drawn from all announced positions plus one never-announced id. " + FS_TRUST + BASE_TRUST,
-    assumptions=["one schedule; request concurrency, REQ racing the STAT stream and bursts >132 are outside the claim", "the stream is an in-memory FIFO that deep-copies packets"],
+    assumptions=["two deterministic schedules (run-until-block, and the same with every sender-side SendMsg returning only after the peer reacted, which lets requests race the STAT stream); other interleavings, request concurrency and bursts >132 are outside the claim", "the stream is an in-memory FIFO that deep-copies packets"],
     obligations=[
         ob("VH_C06_sender", dict(MAXB=1, NREQ=2), Q, covers=["valid-request", "invalid-request", "fin", "hardlink-entry"], bounds="files <=1 byte, 2 requests"),
+        ob("VH_C06_eager", dict(MAXB=1), covers=["eager-request", "fin"], bounds="requests issued the moment a STAT arrives (any subset) or after the end marker (any subset), over a transport whose SendMsg returns after the peer reacted; files <=1 byte"),
         ob("VH_C06_sender", dict(MAXB=2, NREQ=3), T, covers=["valid-request", "invalid-request", "fin", "hardlink-entry"], bounds="files <=2 bytes, 3 requests"),
     ],
 )
@@ -173,7 +174,7 @@ CHECKS["C05"] = dict(
 
 CHECKS["C01"] = dict(
     level_text="Two depths, both decided by the solver over all inputs inside the bounds: (a) the real doubleWalkDiff (three goroutines, channels, errgroup) on arbitrary parent-closed tree pairs with symbolic stats: applying the emitted change stream to the lower tree yields the upper tree, with exactly one change per differing path; (b) the real Send (on-disk source through NewFS/Walk/mkstat) and the real Receive connected by an in-memory stream on the model file system: whenever both return success the destination equals the source tree (types, bytes, permission/special bits, uid/gid, symlink targets, device numbers, hard-link groups, mtimes of non-directories and created directories) for every source tree and dirty prior destination explored.",
-    level_note="Bounds: (a) universes of 3 (quick) / 4 and 6 (thorough) paths including names that sort differently bytewise and path-wise (a, a/b, a-b), symbolic Mode and Size (plus Uid, ModTime in the FULL variant); (b) source trees over {d, d/f, e, h(hard link), l(symlink), p(fifo/char device)} with symbolic permission/special bits, uid, gid, files of 0..1 symbolic bytes, mtimes from 2 values, prior destination in {empty, stale file, dir where the source has a file, file where the source has a dir, symlink + nested stale content}. Merge mode, xattrs, unprivileged receivers, 32 KiB chunk boundaries and synthetic sources are outside. " + FS_TRUST + BASE_TRUST,
+    level_note="Bounds: (a) universes of 3 (quick) / 4 and 6 (thorough) paths including names that sort differently bytewise and path-wise (a, a/b, a-b), symbolic Mode and Size (plus Uid, ModTime in the FULL variant); (b) source trees over {d, d/f, e, h(hard link), l(symlink), p(fifo/char device)} with symbolic permission/special bits, uid, gid, files of 0..1 symbolic bytes, mtimes from 2 values, prior destination in {empty, stale file, dir where the source has a file, file where the source has a dir, symlink + nested stale content}. Merge mode, unprivileged receivers, 32 KiB chunk boundaries and synthetic sources are outside. " + FS_TRUST + BASE_TRUST,
     assumptions=["one schedule (the stat->diff->writer pipeline is a Kahn network: results, not liveness, are schedule independent)", "mtimes are drawn from a small concrete set so that ns arithmetic stays concrete"],
     obligations=[
         ob("VH_C01_diff", dict(U=0), covers=["added", "removed", "unchanged", "modified"], bounds="universe {a, a/b, a-b}"),
@@ -184,8 +185,10 @@ CHECKS["C01"] = dict(
         ob("VH_C01_diff", dict(U=5), T, covers=["added", "removed", "unchanged", "modified"], bounds="universe {a, a/b, a/c, a-b, a-b/c, b}"),
         ob("VH_C01_e2e", dict(S=8, D=5, MAXB=1, NZ=1), Q, covers=["done"], bounds="source {d, d/f, e}, files <=1 byte, every dirty prior destination, non-zero ids", max_steps=5000000),
         ob("VH_C01_e2e", dict(S=3, D=2, MAXB=1, NZ=1), Q, covers=["done"], bounds="source {d, d/f, h, l}, prior destination empty or stale file, non-zero ids", max_steps=5000000),
+        ob("VH_C01_e2e", dict(S=2, D=6, MAXB=0, NZ=1), Q, covers=["done"], bounds="source {d, d/f, l -> d/f or d}, every dirty prior destination incl. a directory where the source has the symlink", max_steps=5000000),
         ob("VH_C01_e2e", dict(S=4, D=1, MAXB=1, NZ=1), Q, covers=["done"], bounds="source {d, d/f, p(fifo/char device)}, fresh destination, non-zero ids", max_steps=5000000),
-        ob("VH_C01_e2e", dict(S=15, D=5, MAXB=1, NZ=1), T, covers=["done"], bounds="source {d, d/f, e, h, l, p}, every dirty prior destination, non-zero ids", max_steps=5000000),
+        ob("VH_C01_e2e", dict(S=0, D=2, MAXB=1, NZ=1, X=1), Q, covers=["done"], bounds="source {d, d/f} with optional user.* xattrs on both, prior destination empty or stale file", max_steps=5000000),
+        ob("VH_C01_e2e", dict(S=15, D=6, MAXB=1, NZ=1), T, covers=["done"], bounds="source {d, d/f, e, h, l, p}, every dirty prior destination, non-zero ids", max_steps=5000000),
         ob("VH_C01_e2e", dict(S=8, D=2, MAXB=1, NZ=0), T, covers=["done"], bounds="source {d, d/f, e}, fully symbolic ids", max_steps=5000000),
     ],
 )
@@ -194,13 +197,14 @@ COPY = MOD + "/copy"
 
 CHECKS["C13"] = dict(
     level_text="The real copy.Copy (rootPath/continuity RootPath, MkdirAll, copier.copy, copyDirectory, copyFileInfo, copyFile/copy_file_range loop, copyDevice, hard-link map, notifier) is executed symbolically on the model file system for every source tree and option set inside the bounds; the solver shows the destination equals the source (or carries the requested owner / octal or symbolic mode / timestamp), hard-link groups are preserved, and the notifier fires exactly once per non-directory with its destination path.",
-    level_note="Bounds: source tree t/{f, d/, d/g, h(hard link), l(symlink), p(fifo/char device)} with symbolic permission+special bits, uid, gid, files of 0..1 symbolic bytes, mtimes from 2 values; options chown (symbolic ids), octal mode (symbolic 12 bits), utime, symbolic modes a+X and go-w. Because the model's Lchown clears setuid/setgid like Linux, a chmod-before-chown ordering would be visible in the final state. xattrs, follow-links on, and other symbolic mode strings are outside. " + FS_TRUST + BASE_TRUST,
-    assumptions=["copy_file_range is modelled as copying everything asked for (fall-back variants in the thorough tier)", "xattr list of every node is empty"],
+    level_note="Bounds: source tree t/{f, d/, d/g, h(hard link), l(symlink), p(fifo/char device)} with symbolic permission+special bits, uid, gid, files of 0..1 symbolic bytes, mtimes from 2 values; options chown (symbolic ids), octal mode (symbolic 12 bits), utime, symbolic modes a+X and go-w. Because the model's Lchown clears setuid/setgid like Linux, a chmod-before-chown ordering would be visible in the final state. follow-links on, xattr error handlers and other symbolic mode strings are outside. " + FS_TRUST + BASE_TRUST,
+    assumptions=["copy_file_range is modelled as copying everything asked for (fall-back variants in the thorough tier)", "xattrs: at most one user.* attribute per node"],
     obligations=[
         ob("VH_C13_tree", dict(S=15, MAXB=1, OPT=0), pkg=COPY, covers=["done"], bounds="whole universe, no options"),
         ob("VH_C13_tree", dict(S=3, MAXB=1, OPT=7), pkg=COPY, covers=["done"], bounds="{f, d, d/g, h}, chown+mode+utime"),
         ob("VH_C13_tree", dict(S=12, MAXB=1, OPT=3), pkg=COPY, covers=["done"], bounds="{f, l, p}, chown+mode"),
         ob("VH_C13_tree", dict(S=1, MAXB=0, OPT=8), pkg=COPY, covers=["done"], bounds="{f, d, d/g}, symbolic modes a+X / go-w"),
+        ob("VH_C13_tree", dict(S=1, MAXB=1, OPT=0, X=1), pkg=COPY, covers=["done"], bounds="{f, d, d/g} with optional user.* xattrs on t and f"),
         ob("VH_C13_tree", dict(S=15, MAXB=2, OPT=0), T, pkg=COPY, covers=["done"], bounds="whole universe, files <=2 bytes"),
         ob("VH_C13_tree", dict(S=15, MAXB=1, OPT=7), T, pkg=COPY, covers=["done"], bounds="whole universe, chown+mode+utime"),
         ob("VH_C13_tree", dict(S=13, MAXB=0, OPT=9), T, pkg=COPY, covers=["done"], bounds="{f, d, d/g, l, p}, chown + symbolic modes"),
